@@ -2,7 +2,7 @@
 From Coq Require Import Reals List Lra Lia Bool.
 From Dadi Require Import Base.Num Base.NumR Model.Tridiag Model.Scheme Model.NDSweep
   Proofs.TridiagProofs Proofs.SchemeProofs Proofs.MassBalance Proofs.Drivers Proofs.NDLines Proofs.NDSweepProofs Proofs.NDWeights Proofs.IntegrateLinear Proofs.IntegrateRescale Proofs.SumLemmas Proofs.FrozenMarginal Proofs.FrozenStep Proofs.TotalMass
-  Proofs.IsolatedLine Proofs.IsolatedSweep Proofs.IsolatedStep.
+  Proofs.IsolatedLine Proofs.IsolatedSweep Proofs.IsolatedStep Proofs.StepMass.
 Import ListNotations.
 Local Open Scope R_scope.
 
@@ -134,6 +134,43 @@ Theorem C04_outflow_only_on_corner_lines : forall shape grids k p,
   out0 (nth k grids []) (Mline shape grids k p o q) (p_nu p) (corner0 shape grids k o q) = 0 /\
   out1 (nth k grids []) (Mline shape grids k p o q) (p_nu p) (corner1 shape grids k o q) = 0.
 Proof. exact outflow_only_on_corner_lines. Qed.
+
+(** whole time step: total mass changes only by the mutation influx and by the corner outflow of the sweeps
+    (influx = sum over the populations that are neither frozen nor nomut of weight(e_k) * injected amount;
+     outflow_of = corner outflow of the sweeps of the non-frozen populations, in sweep order) *)
+Theorem C04_step_total_mass_balance : forall shape grids, (forall n, In n shape -> (2 <= n)%nat) ->
+  (forall k, (k < length shape)%nat ->
+     length (nth k grids []) = ax_len shape k /\ (2 <= ax_len shape k)%nat /\
+     (forall j, (j < length (nth k grids []) - 1)%nat -> 0 < dx (nth k grids []) j)) ->
+  forall pops theta dt dj phi, wf_pops shape pops -> length phi = prodn shape -> dt <> 0 -> nonsingular shape grids pops dj dt ->
+  total_mass shape grids (step shape grids pops theta dt dj phi)
+  = total_mass shape grids phi + influx shape grids pops theta dt
+    - dt * outflow_of shape grids pops dt dj (combine (seq 0 (length shape)) pops) (inject shape grids pops theta dt phi).
+Proof. exact step_total_mass_balance. Qed.
+Print Assumptions C04_step_total_mass_balance.
+(** the influx of one population on grids that start at 0: weight * amount = dt * theta0 / (2 x_k[1]), i.e. new mutations
+    enter at the first interior frequency at rate theta0/2 per unit of x *)
+Theorem C04_influx_per_population : forall shape grids k theta dt, (k < length shape)%nat ->
+  (forall a, (a < length shape)%nat -> nthF (nth a grids []) 0 = 0 /\ nthF (nth a grids []) 1 <> 0 /\ (2 <= length (nth a grids []))%nat) ->
+  (3 <= length (nth k grids []))%nat -> nthF (nth k grids []) 2 <> 0 ->
+  influx_term shape grids k theta dt = dt * theta / (2 * nthF (nth k grids []) 1).
+Proof. exact influx_term_value. Qed.
+(** frozen and nomut populations receive no new mutations (the influx is the sum over the others) ... *)
+Theorem C04_no_influx_when_frozen_or_nomut : forall shape grids pops theta dt,
+  influx shape grids pops theta dt =
+  fold_right (fun kp acc => (if p_frozen (snd kp) || p_nomut (snd kp) then 0 else influx_term shape grids (fst kp) theta dt) + acc)
+             0 (combine (seq 0 (length shape)) pops).
+Proof. reflexivity. Qed.
+(** ... and a sweep none of whose lines is a corner line has no outflow *)
+Theorem C04_no_outflow_without_corner_lines : forall shape grids,
+  (forall k, (k < length shape)%nat ->
+     length (nth k grids []) = ax_len shape k /\ (2 <= ax_len shape k)%nat /\
+     (forall j, (j < length (nth k grids []) - 1)%nat -> 0 < dx (nth k grids []) j)) ->
+  forall k p after, (k < length shape)%nat ->
+  (forall o q, (o < ax_outer shape k)%nat -> (q < ax_inner shape k)%nat ->
+     corner0 shape grids k o q = false /\ corner1 shape grids k o q = false) ->
+  sweep_outflow shape grids k p after = 0.
+Proof. exact sweep_outflow_corner_lines_only. Qed.
 
 (** zero-duration integration returns the density unchanged (constant and time-dependent drivers) *)
 Theorem C04_zero_duration_identity : forall fuel shape grids (pops : list (@pop R)) theta0 tf use_delj t phi,
